@@ -39,6 +39,21 @@ let parse_event (tok : string) : event =
   | ["b"; i; t] -> EBlockStep (nat_of_int (int_of_string i), t = "1")
   | _ -> failwith ("event " ^ tok)
 
+(* "BW,i,k:target:tag+k:target:tag/..." : block on call i while the peer delivers the batches *)
+type item = Ev of event | BW of nat * pmsg list list
+let parse_pmsg (t : string) : pmsg =
+  match String.split_on_char ':' t with
+  | [k; target; tag] ->
+      let v = int_of_string (String.sub target 1 (String.length target - 1)) in
+      PM (pk k, (if target.[0] = 'c' then Inl (nat_of_int v) else Inr (n_of_int v)), n_of_int (int_of_string tag))
+  | _ -> failwith ("pmsg " ^ t)
+let parse_item (tok : string) : item =
+  match String.split_on_char ',' tok with
+  | ["BW"; i; spec] ->
+      BW (nat_of_int (int_of_string i),
+          List.map (fun b -> List.map parse_pmsg (String.split_on_char '+' b)) (String.split_on_char '/' spec))
+  | _ -> Ev (parse_event tok)
+
 let fmt_msg hide (m : msg) =
   match m.m_kind with
   | KPeer PReturn -> Printf.sprintf "r%d.%d" (int_of_n m.m_rs) (int_of_n m.m_tag)
@@ -72,10 +87,12 @@ let completions (os : obs list) =
   String.concat "," (List.filter_map (function OComplete (i, m) -> Some (Printf.sprintf "%d=%s" (int_of_nat i) (fmt_msg false m)) | _ -> None) os)
 
 let run_line single toks =
-  let evs = List.map parse_event toks in
+  let evs = List.map parse_item toks in
   let st = ref init in
-  let segs = List.map (fun e ->
-      let (st', os) = (if single then step1 else step) !st e in
+  let segs = List.map (fun it ->
+      let (st', os) = (match it with
+                       | Ev e -> (if single then step1 else step) !st e
+                       | BW (i, bs) -> block_with !st i bs) in
       st := st';
       let a = List.filter early os and b = List.filter (fun o -> not (early o)) os in
       String.concat "" (List.map fmt_obs (a @ b)) ^ fmt_state st') evs in
